@@ -1,0 +1,9 @@
+//go:build verif
+// +build verif
+
+package hc
+
+// VerifTXT returns the txt records which are currently advertised via mDNS.
+func (t *ipTransport) VerifTXT() map[string]string {
+	return t.config.txtRecords()
+}
